@@ -62,7 +62,7 @@ class GroupBCD(BaseSolver):
         n_groups = len(penalty.grp_ptr) - 1
 
         w = np.zeros(n_features + self.fit_intercept) if w_init is None else w_init
-        Xw = np.zeros(n_samples) if w_init is None else Xw_init
+        Xw = np.zeros(n_samples) if Xw_init is None else Xw_init
 
         if len(w) != n_features + self.fit_intercept:
             if self.fit_intercept:
@@ -85,6 +85,7 @@ class GroupBCD(BaseSolver):
 
         all_groups = np.arange(n_groups)
         p_objs_out = np.zeros(self.max_iter)
+        n_iter_done = 0
         stop_crit = np.inf  # prevent ref before assign when max_iter == 0
         accelerator = AndersonAcceleration(K=5)
         if _verif.ON:
@@ -196,10 +197,11 @@ class GroupBCD(BaseSolver):
                         break
             p_obj = datafit.value(y, w, Xw) + penalty.value(w[:n_features])
             p_objs_out[t] = p_obj
+            n_iter_done = t + 1
             if _verif.ON:
                 _verif.emit("record", t=t, p_obj=p_obj, w=w, Xw=Xw)
 
-        return w, p_objs_out, stop_crit
+        return w, p_objs_out[:n_iter_done], stop_crit
 
     def custom_checks(self, X, y, datafit, penalty):
         check_group_compatible(datafit)
